@@ -118,6 +118,26 @@ if "Rec" not in doing.Doer.Registry:
         return True if (ctx == BENTER or ctx == "benter") else None
 
 
+def watch_fiats():
+    """Harness-side observation of fiat return values: wrap the five Fiat actor classes' action methods
+    (idempotent) so each call appends ('~fiat', <slave name>, <kind>, str(result)) to EVENTS."""
+    from ioflo.base import fiating
+    for kind in ("Ready", "Start", "Run", "Stop", "Abort"):
+        cls = getattr(fiating, "Fiat" + kind)
+        if getattr(cls.action, "_verif_wrapped", False):
+            continue
+        orig = cls.action
+
+        def make(orig, kind):
+            def action(self, tasker, **kw):
+                r = orig(self, tasker=tasker, **kw)
+                EVENTS.append(("~fiat", tasker.name, kind.lower(), str(bool(r))))
+                return r
+            action._verif_wrapped = True
+            return action
+        cls.action = make(orig, kind)
+
+
 # ----------------------------------------------------------------------------- structural dump
 
 def _plain(v, depth=0):
